@@ -11,13 +11,11 @@ Local Open Scope dec_scope.
    the claims are recorded, 2 kill after they are recorded / during the sleep that follows) *)
 Definition sstep := (Z * Z * Z)%type.
 
-(* the events of a block that the relayer can turn into a claim: the scenario marks an event whose fields
-   txs.EthereumEventToEthBridgeClaim refuses (recipient with a wrong checksum, "eth" with a token address) by a nonce
-   whose last two digits are 50 or more; the loop logs such an event and goes on with the next one *)
 Fixpoint assoc_events (evs : list (Z * list Z)) (b : Z) : list Z :=
   match evs with [] => [] | (b', l) :: r => if b' =? b then l else assoc_events r b end.
-Definition scenario_events (evs : list (Z * list Z)) : Z -> list Z :=
-  translatable_events (fun n => n mod 100 <? 50) (assoc_events evs).
+(* the scenario marks an event whose fields txs.EthereumEventToEthBridgeClaim refuses (recipient with a wrong checksum, "eth"
+   with a token address) by a nonce whose last two digits are 50 or more *)
+Definition scenario_tr (n : Z) : bool := n mod 100 <? 50.
 
 (* observation tokens: [1; from; to; code] a log query (code 0 ok, 1 failed, 2 killed), [2; nonce] a submitted claim,
    [3; cursor] the persisted cursor *)
@@ -31,7 +29,7 @@ Definition apply_step (ev : Z -> list Z) (s : rstate) (st : sstep) : rstate * li
   let s1 := step ev s (Head n true) in
   match r_pc s1 with
   | Fetched _ _ evs =>
-    let nonces := concat (map (fun be => [2; snd be]) evs) in
+    let nonces := concat (map (fun be => [2; snd be]) (handle_events scenario_tr evs)) in
     if sm =? 1 then let s2 := step ev s1 Kill in (s2, [1; cur; ending; 0; 3; r_persisted s2])
     else if sm =? 2 then let s2 := step ev (step ev s1 Tick) Kill in (s2, [1; cur; ending; 0] ++ nonces ++ [3; r_persisted s2])
     else let s2 := step ev (step ev s1 Tick) Tick in (s2, [1; cur; ending; 0] ++ nonces ++ [3; r_persisted s2])
@@ -50,7 +48,7 @@ Definition dLoopCase : dec (Z * list (Z * list Z) * list sstep * list Z) :=
 
 Definition loop_mismatch (c : Z * list (Z * list Z) * list sstep * list Z) : option (Z * Z) :=
   let '(id, evs, steps, obs) := c in
-  let model := run_obs (scenario_events evs) init steps in
+  let model := run_obs (assoc_events evs) init steps in
   if list_eqb Z.eqb model obs then None else Some (id, Z.of_nat (length (filter (fun x => x) (map (fun p => Z.eqb (fst p) (snd p)) (combine model obs))))).
 
 Definition loop_mismatches (raw : list (list int)) : list (Z * Z) := check_all dLoopCase loop_mismatch raw.
